@@ -5,6 +5,7 @@ import SarpyModel.Drivers.FieldFmt
 import SarpyModel.Drivers.Layout
 import SarpyModel.Drivers.Sidd
 import SarpyModel.Drivers.Cphd
+import SarpyModel.Drivers.Codec
 namespace Sarpy.Drivers
 
 def step (line : String) : String :=
@@ -17,6 +18,7 @@ def step (line : String) : String :=
   | "layout" :: rest => (layoutStep rest).getD "bad-op"
   | "sidd" :: rest => (siddStep rest).getD "bad-op"
   | "cphd" :: rest => (cphdStep rest).getD "bad-op"
+  | "codec" :: rest => (codecStep rest).getD "bad-op"
   | _ => "bad-op"
 
 partial def loop (h : IO.FS.Stream) : IO Unit := do
